@@ -22,7 +22,8 @@ fn text3(as_str: &str, display: String, eq_self: bool) -> Result<String, String>
 
 /// `== &str` must be FALSE for every string other than the canonical text (C12): near misses of the text
 fn eq_only_self(t: &str, eq: &dyn Fn(&str) -> bool) -> Option<String> {
-    let mut others: Vec<String> = vec![format!("{}x", t), format!("x{}", t), String::new(), format!("{}-", t), format!(" {}", t)];
+    let mut others: Vec<String> = vec![format!("{}x", t), format!("x{}", t), String::new(), format!("{}-", t), format!(" {}", t),
+                                       format!("{}-US", t), format!("{}_x", t), format!("{}{}", t, t), format!("{}-{}", t, t), format!("{}1", t), format!("{}\0", t)];
     if !t.is_empty() { others.push(t[..t.len() - 1].to_string()); others.push(t[1..].to_string()); }
     for o in [t.to_uppercase(), t.to_lowercase()] { others.push(o); }
     let mut flipped: Vec<u8> = t.as_bytes().to_vec();
